@@ -534,7 +534,10 @@ pub fn check(prop: &str, tier: &str) -> i32 {
         // process per seed.
         for (profile, begin, status) in &dead {
             let mut culprit = None;
-            for sd in *begin..begin + 32 * nw {
+            // the worker that died had begun the batch of 32 scenarios starting at `begin`
+            // (stride = number of workers); spawn workers announce every seed
+            let (count, stride) = if profile == "spawn" || profile == "C07sweep" { (1, 1) } else { (32, nw) };
+            for sd in (0..count).map(|k| begin + k * stride) {
                 let st = Command::new(std::env::current_exe().unwrap())
                     .args(["one", profile, &sd.to_string()])
                     .stdout(Stdio::null())
